@@ -27,9 +27,11 @@ fn state_json(st: &uv::VerifRateState) -> serde_json::Value {
         "nrecv": st.recv_rate_set.len()})
 }
 
-pub fn run_tfrc(tr: &mut Trace, run: u64, seed: u64) -> (u64, bool) {
+/// `bounded`: keep every value below 10^9 (receive rates, ceilings) so that the 32-bit integer model of
+/// TfrcTrace.tla can follow the whole run; the unbounded runs are judged by MonTfrc.tla only.
+pub fn run_tfrc(tr: &mut Trace, run: u64, seed: u64, bounded: bool) -> (u64, bool) {
     let mut r = Rng::new(seed);
-    let ceiling: u32 = *r.pick(&[1472u32, 1500, 3000, 20000, 100000, 2_000_000, 2_000_000_000]);
+    let ceiling: u32 = if bounded { *r.pick(&[1472u32, 1500, 3000, 20000, 100000, 2_000_000, 1_000_000_000]) } else { *r.pick(&[1472u32, 1500, 3000, 20000, 100000, 2_000_000, 2_000_000_000]) };
     let mut comp = uv::SendRateComp::new(ceiling);
     tr.line(json!({"ev": "Reset", "run": run, "seed": seed as i64 & 0x3FFFFFFF, "driver": "tfrc", "profile": "tfrc", "ceiling": ceiling}));
     let mut now: u64 = r.below(1000);
@@ -62,6 +64,7 @@ pub fn run_tfrc(tr: &mut Trace, run: u64, seed: u64) -> (u64, bool) {
             }
         } else if kind < 7 {
             let sample_ms: u64 = match (rtt_style, r.below(8)) {
+                (0, _) if bounded => r.range(1, 3),
                 (0, _) => r.below(3),
                 (1, _) => r.range(1, 40),
                 (2, _) => r.range(50, 800),
@@ -72,6 +75,8 @@ pub fn run_tfrc(tr: &mut Trace, run: u64, seed: u64) -> (u64, bool) {
             };
             let recv: u32 = match r.below(8) {
                 0 => 0,
+                1 if bounded => 1_000_000_000,
+                3 if bounded => ((r.next() as u32) >> r.below(20)) % 1_000_000_001,
                 1 => u32::MAX,
                 2 => r.range(1, 100) as u32,
                 3 => (r.next() as u32) >> r.below(20),
@@ -93,6 +98,8 @@ pub fn run_tfrc(tr: &mut Trace, run: u64, seed: u64) -> (u64, bool) {
                 "p_ppm": (p_cur * 1e6) as i64, "loss_increase": p_cur > pre.prev_loss_rate, "rl": rl,
                 "ora_xbps": if p_cur > 0.0 && rtt_s > 0.0 { clip(x_bps(rtt_s, p_cur)) } else { 2_000_000_000 },
                 "ora_init": if rtt_s > 0.0 { clip(4380.0 / rtt_s) } else { 2_000_000_000 },
+                "ora_lossinit": if rtt_s > 0.0 { clip(736.0 / rtt_s) } else { 2_000_000_000 },
+                "ora_recv85": clip(recv as f64 * 0.85),
                 "ora_reset_xbps": match reset_p { Some(p) if p > 0.0 && rtt_s > 0.0 => clip(x_bps(rtt_s, p)), Some(_) => 2_000_000_000, None => -1 },
                 "has_reset": reset_p.is_some()}));
             if let Err(oc) = res {
@@ -102,7 +109,8 @@ pub fn run_tfrc(tr: &mut Trace, run: u64, seed: u64) -> (u64, bool) {
             }
         } else {
             let res = guarded(&hang, || comp.step(now, None, |_| ()));
-            tr.line(json!({"ev": "Op", "kind": "tick", "now": now.min(2_000_000_000)}));
+            let ora_init = match pre.rtt_s { Some(r) if r > 0.0 => clip(4380.0 / r), Some(_) => 2_000_000_000, None => -1 };
+            tr.line(json!({"ev": "Op", "kind": "tick", "now": now.min(2_000_000_000), "ora_init": ora_init}));
             if let Err(oc) = res {
                 tr.line(json!({"ev": "Ret", "ep": "tfrc", "call": "step(no feedback)", "outcome": "panic", "msg": oc.msg, "file": oc.file, "t": 0}));
                 dead = true;
